@@ -600,7 +600,9 @@ def batch_compile(reqs, nproc=None, timeout=600):
                     continue
                 res[j["id"]] = dict(ok=j["ok"], panic=j["panic"], out=html_text(j["out"]))
                 done += 1
-            if done < len(todo):
+            if done < len(todo) and rc == 3 and done > 0 and "timeout" in (res[todo[done - 1]["id"]].get("panic") or ""):
+                todo = todo[done:]            # the hook answered `timeout` for todo[done-1] and exited on purpose
+            elif done < len(todo):
                 # the process died (fatal error / os.Exit / timeout) while handling todo[done]
                 r = todo[done]
                 res[r["id"]] = dict(ok=False, panic="process died rc=%s: %s ... %s" % (rc, err[:1200], err[-600:]), out="")
@@ -620,6 +622,6 @@ def batch_typecheck_sources(sources, work, prefix="c"):
         d = work.sub("%s%d" % (prefix, i))
         f = os.path.join(d, "main.fer")
         open(f, "w").write(s)
-        reqs.append(dict(id=i, file=f, mode="t"))
+        reqs.append(dict(id=i, file=f, mode="t", timeout_ms=20000))
     res = batch_compile(reqs)
     return [res[i] for i in range(len(sources))]
